@@ -55,6 +55,9 @@ type tryFrame struct {
 	privEnv *privateEnv
 
 	catchPos, finallyPos, finallyRet int32
+
+	// holds the value of a 'return' that is pending while the 'finally' block runs
+	result Value
 }
 
 type execCtx struct {
@@ -4806,6 +4809,27 @@ func (leaveTry) exec(vm *vm) {
 	}
 }
 
+// leaveTryRet is leaveTry for a 'return' statement (emitted between saveResult and loadResult). If a 'finally' block
+// has to run first, the value to return is parked in the try frame rather than left in vm.result, which another
+// 'return' inside the 'finally' block would overwrite; leaveFinally puts it back.
+type leaveTryRet struct{}
+
+func (leaveTryRet) exec(vm *vm) {
+	tf := &vm.tryStack[len(vm.tryStack)-1]
+	if tf.finallyPos >= 0 {
+		tf.result = vm.result
+		tf.finallyRet = int32(vm.pc + 1)
+		vm.pc = int(tf.finallyPos)
+		tf.finallyPos = -1
+		tf.catchPos = -1
+		vm.sp, vm.stash = int(tf.sp), tf.stash
+		vm.vt("LeaveTry", "fin")
+	} else {
+		vm.popTryFrame()
+		vm.pc++
+	}
+}
+
 type enterFinally struct{}
 
 func (enterFinally) exec(vm *vm) {
@@ -4821,6 +4845,7 @@ type leaveFinally struct{}
 func (leaveFinally) exec(vm *vm) {
 	tf := &vm.tryStack[len(vm.tryStack)-1]
 	ex, ret := tf.exception, tf.finallyRet
+	res := tf.result
 	tf.exception = nil
 	vm.vt("LeaveFinally", verifFinallyKind(ex != nil, ret))
 	vm.popTryFrame()
@@ -4830,6 +4855,9 @@ func (leaveFinally) exec(vm *vm) {
 	} else {
 		if ret != -1 {
 			vm.pc = int(ret)
+			if res != nil {
+				vm.result = res
+			}
 		} else {
 			vm.pc++
 		}
